@@ -11,12 +11,17 @@ from specs.inotify_read import IRWorld, AddDirWatch, AddWatch, ReadEvents, strin
 
 PROP = "C02"
 GROUNDABLE = True
+GROUND_SCOPES = (4,)   # the emitter's path world needs a path, its parent and their two byte encodings
 BATTERY = "c02_battery.py"
 
 
 def make_specs():
     W = IRWorld()
-    return [AddWatch(W, PROP), AddDirWatch(W, PROP), ReadEvents(W, PROP, want=("maps",))]
+    out = [AddWatch(W, PROP), AddDirWatch(W, PROP), ReadEvents(W, PROP, want=("maps",))]
+    # "under a non-recursive watch ... changes any deeper never are": the emitter walks nothing for a non-recursive watch
+    from specs import inotify_emitter
+    out.append(inotify_emitter.QueueEvents(inotify_emitter.World(), PROP, want=("nonrec",)))
+    return out
 
 
 def lemmas():
